@@ -127,6 +127,9 @@ func (x *Exec) callIterator(s *State, fr *Frame, spec *FuncSpec, key string, arg
 	}
 	ord := x.iterOrdinal(fr.fn, in)
 	lspec := x.iterSpecFor(fr, ord)
+	if fr.fn == x.top {
+		x.iterSeen[ord] = true
+	}
 	x.safeNil(s, fr, el, in.Pos(), in)
 	errT := sig.Results().At(0).Type()
 	nmatch := x.ghostApp("NMatch", SInt, el.Term, ns.Term, tag.Term)
